@@ -10,42 +10,46 @@ EXTENDS StreamCore, Json
 
 CONSTANTS Streams,      \* set of byte sequences the peer may send
           WriteLines,   \* set of code-point sequences the application may write
-          MaxReads, MaxWrites, WithFaults
+          MaxReads, MaxWrites, MaxConnects, WithFaults
 
-VARIABLES stream, wire, rbuf, eof, conn, pending, results, peer, nw, hist
-vars == <<stream, wire, rbuf, eof, conn, pending, results, peer, nw, hist>>
-View == <<stream, wire, rbuf, eof, conn, pending, results, peer, nw>>
+VARIABLES stream, wire, rbuf, eof, conn, pending, results, peer, nw, nconn, hist
+vars == <<stream, wire, rbuf, eof, conn, pending, results, peer, nw, nconn, hist>>
+View == <<stream, wire, rbuf, eof, conn, pending, results, peer, nw, nconn>>
 
 LineOutcome(bytes) == LET d == Utf8Decode(bytes) IN IF d.ok THEN <<"line", d.s>> ELSE <<"error", <<>>>>
 Err == <<"error", <<>>>>
 
 Init == /\ stream \in Streams /\ wire = stream /\ rbuf = <<>> /\ eof = FALSE
-        /\ conn = "new" /\ pending = FALSE /\ results = <<>> /\ peer = <<>> /\ nw = 0 /\ hist = <<>>
+        /\ conn = "new" /\ pending = FALSE /\ results = <<>> /\ peer = <<>> /\ nw = 0 /\ nconn = 0 /\ hist = <<>>
 
-Connect(ok) == /\ conn = "new" /\ (ok \/ Len(results) < 2)
-               /\ conn' = IF ok THEN "connected" ELSE "new"
+(* connect, also again after a disconnect: a new connection, nothing of the old stream is left *)
+Connect(ok) == /\ conn \in {"new", "closed"} /\ (ok \/ Len(results) < 2) /\ nconn < MaxConnects
+               /\ nconn' = nconn + 1
+               /\ conn' = IF ok THEN "connected" ELSE conn
                /\ results' = IF ok THEN results ELSE Append(results, <<"connect-error", <<>>>>)
                /\ hist' = Append(hist, <<"connect", ok>>)
-               /\ UNCHANGED <<stream, wire, rbuf, eof, pending, peer, nw>>
+               /\ rbuf' = (IF ok THEN <<>> ELSE rbuf)
+               /\ eof' = (IF ok THEN FALSE ELSE eof)
+               /\ UNCHANGED <<stream, wire, pending, peer, nw>>
 
 UseBeforeConnect(op) ==
     /\ conn = "new" /\ Len(results) < 2
     /\ results' = Append(results, Err)
     /\ hist' = Append(hist, <<op, "unconnected">>)
-    /\ UNCHANGED <<stream, wire, rbuf, eof, conn, pending, peer, nw>>
+    /\ UNCHANGED <<stream, wire, rbuf, eof, conn, pending, peer, nw, nconn>>
 
 Arrive(k) == /\ conn = "connected" /\ k \in 1..Len(wire)
              /\ rbuf' = rbuf \o SubSeq(wire, 1, k) /\ wire' = SubSeq(wire, k + 1, Len(wire))
              /\ hist' = Append(hist, <<"arrive", k>>)
-             /\ UNCHANGED <<stream, eof, conn, pending, results, peer, nw>>
+             /\ UNCHANGED <<stream, eof, conn, pending, results, peer, nw, nconn>>
 
 Eof == /\ conn = "connected" /\ wire = <<>> /\ ~eof
        /\ eof' = TRUE /\ hist' = Append(hist, <<"eof">>)
-       /\ UNCHANGED <<stream, wire, rbuf, conn, pending, results, peer, nw>>
+       /\ UNCHANGED <<stream, wire, rbuf, conn, pending, results, peer, nw, nconn>>
 
 ReadStart == /\ conn = "connected" /\ ~pending /\ Len(results) < MaxReads
              /\ pending' = TRUE /\ hist' = Append(hist, <<"read">>)
-             /\ UNCHANGED <<stream, wire, rbuf, eof, conn, results, peer, nw>>
+             /\ UNCHANGED <<stream, wire, rbuf, eof, conn, results, peer, nw, nconn>>
 
 (* a pending read completes as soon as a whole line is buffered, or the stream has ended *)
 ReadDone == /\ pending
@@ -57,19 +61,19 @@ ReadDone == /\ pending
                   /\ rbuf' = <<>>
             /\ pending' = FALSE
             /\ hist' = hist                                   \* not a harness command: follows from the state
-            /\ UNCHANGED <<stream, wire, eof, conn, peer, nw>>
+            /\ UNCHANGED <<stream, wire, eof, conn, peer, nw, nconn>>
 
 Write(l, ok) == /\ conn = "connected" /\ nw < MaxWrites
                 /\ nw' = nw + 1
                 /\ peer' = IF ok THEN peer \o Utf8Encode(l) ELSE peer
                 /\ results' = IF ok THEN results ELSE Append(results, Err)
                 /\ hist' = Append(hist, <<"write", l, ok>>)
-                /\ UNCHANGED <<stream, wire, rbuf, eof, conn, pending>>
+                /\ UNCHANGED <<stream, wire, rbuf, eof, conn, pending, nconn>>
 
 Disconnect(ok) == /\ conn = "connected" /\ ~pending
                   /\ conn' = "closed"
                   /\ hist' = Append(hist, <<"disconnect", ok>>)      \* ok = FALSE: close raises OSError, absorbed
-                  /\ UNCHANGED <<stream, wire, rbuf, eof, pending, results, peer, nw>>
+                  /\ UNCHANGED <<stream, wire, rbuf, eof, pending, results, peer, nw, nconn>>
 
 Next == \/ \E ok \in (IF WithFaults THEN BOOLEAN ELSE {TRUE}) : Connect(ok) \/ Disconnect(ok)
         \/ (WithFaults /\ (UseBeforeConnect("read") \/ UseBeforeConnect("write")))
